@@ -290,6 +290,7 @@ func (t *TracksReader) Do(fn func(TrackEvent)) *TracksReader {
 					for _, f := range t.filter {
 						if ty.Is(f) {
 							fn(te)
+							break
 						}
 					}
 				}
